@@ -36,6 +36,7 @@ void sched_end();              // joins threads, frees task table
 bool in_task();
 int cur_task();
 int cur_spid();
+uint64_t steps_since_time_advance();   // scheduling steps since the virtual clock last moved
 int task_spid(int id);
 int n_tasks();
 void yield(int kind, uint32_t site);                 // possible preemption point
